@@ -272,9 +272,34 @@ def is_pie(data, salt=0):
     return chart_type_for(data, salt) in (T.PIE, T.PIE_EXPLODED)
 
 
+_ALL_CAT = []
+
+
+def all_category_types():
+    """every chart type the library writes from category chart data (each has its own XML template), in enum order"""
+    if not _ALL_CAT:
+        from pptx.chart.data import CategoryChartData
+        from pptx.chart.xmlwriter import ChartXmlWriter
+        from pptx.enum.chart import XL_CHART_TYPE as T
+        cd = CategoryChartData()
+        cd.categories = ["a"]
+        cd.add_series("s", (1,))
+        for t in T:
+            if "XY" in t.name or "BUBBLE" in t.name:
+                continue
+            try:
+                ChartXmlWriter(t, cd).xml
+            except Exception:  # noqa  (types without a writer)
+                continue
+            _ALL_CAT.append(t)
+    return _ALL_CAT
+
+
 def chart_type_for(data, salt=0):
     from pptx.enum.chart import XL_CHART_TYPE as T
 
+    if data["kind"] == "cat" and salt >= 1000:
+        return all_category_types()[(salt - 1000) % len(all_category_types())]
     if data["kind"] == "cat":
         ts = [T.BAR_CLUSTERED, T.LINE, T.PIE, T.AREA, T.DOUGHNUT, T.RADAR, T.COLUMN_STACKED, T.LINE_MARKERS]
         if not data["series"]:
@@ -1174,6 +1199,11 @@ def gen_cases(tier, rng):
         d = {"kind": "cat", "cats": gen_dates(rng, 3, False), "series": [["s", [1, 2, 3]]]}
         cases.append({"op": "hist", "data": d, "ops": [["d1904", 1], ["rep", d]] + ([["d1904", 0], ["rep", d]] if i % 2 else []),
                       "salt": i, "reopen": False, "klass": "edge-date1904"})
+    # every category chart type has its own XML template: created with date categories, then replace_data with dates
+    for i in range(len(all_category_types())):
+        d = {"kind": "cat", "cats": gen_dates(rng, 3, False), "series": [["s", [1, 2, 3]]]}
+        d2 = {"kind": "cat", "cats": gen_dates(rng, 4, False), "series": [["s", [4, 3, 2, 1]]]}
+        cases.append({"op": "hist", "data": d, "ops": [["rep", d2]], "salt": 1000 + i, "reopen": False, "klass": "dates-by-chart-type"})
     deep = None
     for i in range(27):
         deep = [["s", "L%d" % i], [deep] if deep else []]
